@@ -97,6 +97,7 @@ def main():
     if rc != 0:
         rc, out = sh(f"git -C /repo apply --3way {patch}")
         sh("git -C /repo reset -q")
+    before = set(os.listdir("/verif/replays"))
     try:
         res["checks"] = {}
         for c in checks:
@@ -105,6 +106,12 @@ def main():
             res["checks"][c] = {"rc": rc, "lines": [l[:300] for l in vl[:8]]}
     finally:
         sh("git -C /repo checkout -- . && git -C /repo clean -fdq")
+        # evidence and replay files written against the changed tree are not kept
+        sh("git -C /verif checkout -- evidence")
+        keep = os.path.join("/tmp/mw/replays", name)
+        os.makedirs(keep, exist_ok=True)
+        for f in set(os.listdir("/verif/replays")) - before:
+            shutil.move(os.path.join("/verif/replays", f), os.path.join(keep, f))
     print(json.dumps(res))
 
 
